@@ -95,6 +95,7 @@ package index
 //@ func index.(*Builder).flush
 //@   trusted
 //@   requires b != nil
+//@   assigns allfields(Builder), allfields(Document), mapof(b.finishedShards)
 
 //@ func index.(*Builder).Add
 //@   requires b != nil
@@ -104,3 +105,4 @@ package index
 //@   assert at call:append: !(len(doc.Content) > b.opts.SizeMax && !allowLargeFile) && len(doc.Content) >= 3 && (exists i int :: 0 <= i && i < len(doc.Content) && doc.Content[i] == 0) ==> doc.SkipReason == SkipReasonBinary
 //@   ensures !old(b.finishCalled) ==> nQueued == old(nQueued) + 1
 //@   ensures old(b.finishCalled) ==> nQueued == old(nQueued) && result == nil
+//@   assigns allfields(Builder), allfields(Document), mapof(b.finishedShards), mapof(b.docChecker.trigrams), nQueued, anyelem("*Document")
